@@ -6,8 +6,8 @@ import U3.Model.Pool
 ```
 new <maxsize> <block> <proxy>
 req <rid> <retries ~|n> <preload> <release> <redirect> <methodRetryable> <isHead> <attempt>;<attempt>…
-    attempt = connect,send,head,headLen,body,stray,after,seg
-    head = none | garbage | <status>:<close>:<cl ~|n>:<location>:<retryAfter>
+    attempt = connect,send,head,headLen,body,stray,after,seg[,sizes,trailers,hold]
+    head = none | garbage | <status>:<close>:<cl ~|n>:<location>:<retryAfter>[:<chunked>]
 disp <rid> readall|readk:<k>|readkrel:<k>|release|drain|close|drop|stream:<k>
 closepool
 ```
@@ -35,7 +35,10 @@ def head? (s : String) : Option (Option Head) :=
   else if s == "garbage" then some (some garbageHead)
   else match s.splitOn ":" with
     | [st, cl, n, loc, ra] => do
-      let h : Head := Head.mk (← st.toNat?) (← bool? cl) (← optNat? n) (← bool? loc) (← bool? ra) false
+      let h : Head := Head.mk (← st.toNat?) (← bool? cl) (← optNat? n) (← bool? loc) (← bool? ra) false false
+      pure (some h)
+    | [st, cl, n, loc, ra, ch] => do
+      let h : Head := Head.mk (← st.toNat?) (← bool? cl) (← optNat? n) (← bool? loc) (← bool? ra) false (← bool? ch)
       pure (some h)
     | _ => none
 
@@ -43,7 +46,11 @@ def attempt? (s : String) : Option Attempt :=
   match s.splitOn "," with
   | [c, sd, h, hl, b, st, a, sg] => do
     let a : Attempt := Attempt.mk (← connect? c) (← send? sd) (← head? h) (← hl.toNat?) (← str? b) (← str? st)
-      (← after? a) (← sg.toNat?)
+      (← after? a) (← sg.toNat?) [] [] 0
+    pure a
+  | [c, sd, h, hl, b, st, a, sg, sz, tr, ho] => do
+    let a : Attempt := Attempt.mk (← connect? c) (← send? sd) (← head? h) (← hl.toNat?) (← str? b) (← str? st)
+      (← after? a) (← sg.toNat?) (← str? sz) (← str? tr) (← ho.toNat?)
     pure a
   | _ => none
 
@@ -103,6 +110,7 @@ def clsName (c : Nat) : String := Gen.excNames.getD c s!"class{c}"
 def cellVal : Cell → Nat
   | .hd _ _ => 0
   | .body _ v => v
+  | .fr _ _ => 0
 
 def showResult (s : State) : Result → String
   | .resp r => match s.resps[r]? with
